@@ -463,7 +463,7 @@ func (w *world) liveSocks(ni int) []*sock {
 
 func (w *world) runOps(c *Ctx, im *Impl, cf *CaseFile) {
 	r := c.Rng
-	kinds := []string{"bound", "unbound", "unbound", "unbound", "closed-before", "waiting", "concurrent", "dropme", "rejme", "tdrop", "trej", "odrop",
+	kinds := []string{"toolong", "bound", "unbound", "unbound", "unbound", "closed-before", "waiting", "concurrent", "dropme", "rejme", "tdrop", "trej", "odrop",
 		"ping-svc", "unreach-svc", "unknown-node", "unbound8", "unbound-utf8"}
 	if w.spec.nonUTF8 {
 		kinds = []string{"bound", "unbound", "unbound", "unbound-bad", "closed-before", "waiting"}
@@ -503,6 +503,10 @@ func (w *world) runOps(c *Ctx, im *Impl, cf *CaseFile) {
 		}
 		w.pingCase(c, im, cf, ni, dst, hops)
 	}
+	for i := 0; i < (w.spec.pings+3)/4; i++ {
+		ni := r.Intn(len(w.names))
+		w.traceCase(c, im, cf, ni, r.Intn(len(w.names)+1))
+	}
 	if w.spec.dials {
 		w.dialCases(c, im, cf)
 	}
@@ -540,6 +544,8 @@ func (w *world) sendCase(c *Ctx, im *Impl, cf *CaseFile, src *sock, dst int, kin
 		svc = "ñø" + fmt.Sprintf("%d", r.Intn(10))
 	case "unbound-bad":
 		svc = []string{"no\xff", "\xc3", "\xf0\x9f\x92"}[r.Intn(3)]
+	case "toolong":
+		svc = []string{"ninechars", "a-very-long-service-name", "boundsvc1"}[r.Intn(3)]
 	case "unknown-node":
 		svc = "any"
 	case "closed-before", "waiting", "concurrent":
@@ -648,6 +654,8 @@ func (w *world) sendCase(c *Ctx, im *Impl, cf *CaseFile, src *sock, dst int, kin
 			sync = "SUnknown"
 		case werr.Error() == "no route to node":
 			sync = "SNoRoute"
+		case werr.Error() == "service name too long":
+			sync = "STooLong"
 		default:
 			im.Violate(fmt.Sprintf("WriteTo %s:%q -> %s:%q: unexpected error %v", w.names[src.ni], src.svc, dstName, svc, werr), "writeto-error", payload)
 		}
@@ -708,6 +716,13 @@ func (w *world) sendCase(c *Ctx, im *Impl, cf *CaseFile, src *sock, dst int, kin
 		if w.rule(nd, "unreach") != "" {
 			noticesBlocked = true
 		}
+	}
+	if kind == "toolong" {
+		// more than 8 bytes cannot be carried: the caller must be told, and nothing may happen
+		if sync != "STooLong" || at != nil || len(gs) > 0 {
+			im.Violate(fmt.Sprintf("%s: datagram to the %d-byte service name %q: WriteTo returned %v, read=%v, notifications=%d (want the error 'service name too long' and nothing else)", w.spec.name, len(svc), svc, werr, at != nil, len(gs)), "too-long-name-not-refused", replay)
+		}
+		return
 	}
 	fullBudget := hops >= len(p)-1 && (hops > 0 || len(p) == 1)
 	reservedSvc := svc == "ping" || svc == "unreach"
@@ -850,6 +865,88 @@ func (w *world) pingCase(c *Ctx, im *Impl, cf *CaseFile, ni, dst, hops int) {
 	if obs != "PgSilence" && dt > 2*time.Second {
 		im.Violate("ping answer took "+dt.String(), "ping-slow", label)
 	}
+}
+
+// traceCase: Netceptor.Traceroute = one Ping per hop budget, each answered by the 'message expired'
+// notice of the node where the budget ran out, until the target itself answers.
+func (w *world) traceCase(c *Ctx, im *Impl, cf *CaseFile, ni, dst int) {
+	w.seq++
+	target := unknownNode
+	p := []int{ni}
+	if dst < len(w.names) {
+		target = w.names[dst]
+		p = w.path(ni, dst)
+	}
+	nm, _ := w.marks()
+	ctx, cancel := context.WithTimeout(context.Background(), 1500*time.Millisecond)
+	var obs, seen []string
+	t0 := time.Now()
+	for res := range w.nodes[ni].Traceroute(ctx, target) {
+		seen = append(seen, fmt.Sprintf("%s:%v", res.From, res.Err))
+		switch {
+		case res.Err == nil && res.From == target:
+			obs = append(obs, "PgReply")
+		case res.Err == nil:
+			obs = append(obs, fmt.Sprintf("(PgProblem PExpired %s)", HxS(res.From)))
+		case res.Err.Error() == "no route to node":
+			obs = append(obs, "PgNoRoute")
+		case res.Err.Error() == "user cancelled" || res.Err.Error() == "timeout":
+			obs = append(obs, "PgSilence")
+		default:
+			if pb, ok := coqProblem(res.Err.Error()); ok {
+				obs = append(obs, fmt.Sprintf("(PgProblem %s %s)", pb, HxS(res.From)))
+			} else {
+				im.Violate(fmt.Sprintf("traceroute %s -> %s: unexpected error %q", w.names[ni], target, res.Err), "ping-error", nil)
+				cancel()
+				return
+			}
+		}
+	}
+	if ctx.Err() != nil && (len(obs) == 0 || strings.HasPrefix(obs[len(obs)-1], "(PgProblem PExpired")) {
+		// the last Ping got no answer at all before the caller's deadline (a policy drop): the
+		// result channel is closed without a result for it
+		obs = append(obs, "PgSilence")
+		seen = append(seen, "(no answer)")
+	}
+	cancel()
+	dt := time.Since(t0)
+	term := fmt.Sprintf("CTrace %s %s %d %s %s %s %s", w.coqWorld(map[int][]string{ni: {placeholderEph}}, nil), w.coqPath(p), w.mh,
+		HxS(w.names[ni]), HxS(placeholderEph), HxS(target), CoqList(obs))
+	label := fmt.Sprintf("%s traceroute #%d %s -> %s: %v (%.0fms)", w.spec.name, w.seq, w.names[ni], target, seen, dt.Seconds()*1000)
+	cf.Add(term, label)
+	im.Count(fmt.Sprintf("%s|trace|%s|%s", w.spec.name, w.names[ni], target), len(p) > 1)
+	im.Hist(fmt.Sprintf("traceroute:results=%d", len(obs)))
+	// oracle: without a firewall in the way the hops are exactly the nodes of the path, in order
+	clear := dst < len(w.names)
+	for _, nd := range p {
+		if w.rule(nd, "ping") != "" || w.rule(nd, "unreach") != "" {
+			clear = false
+		}
+	}
+	if clear {
+		ok := len(seen) == len(p)
+		for i := 0; ok && i < len(p); i++ {
+			want := w.names[p[i]] + ":<nil>"
+			if i == len(p)-1 {
+				want = target + ":<nil>"
+			}
+			ok = seen[i] == want
+		}
+		if !ok {
+			im.Violate(fmt.Sprintf("%s: traceroute %s -> %s reported %v, want one hop per node of the path %v", w.spec.name, w.names[ni], target, seen, w.coqPathNames(p)), "traceroute-hops", label)
+		}
+	}
+	for _, g := range w.newNotifs(nm) {
+		im.Violate(fmt.Sprintf("%s: traceroute from %s: socket %s:%q received a notification %v", w.spec.name, w.names[ni], w.names[g.s.ni], g.s.svc, g.n), "notice-misdelivered", label)
+	}
+}
+
+func (w *world) coqPathNames(p []int) []string {
+	var xs []string
+	for _, i := range p {
+		xs = append(xs, w.names[i])
+	}
+	return xs
 }
 
 type dialSpec struct {
